@@ -218,6 +218,118 @@ def lsp_session(wd, tcp, default_paths, rng, label, variant=None):
     return log, allowed, phases
 
 
+def misbehaving_sessions(wd, rng):
+    """Sessions with a client that is wrong about the protocol (each in a server of its own, the server may well die):
+    the syscall audit is the same - whatever the server does about it, it writes nowhere but the configured files."""
+    out = []
+    shutil.rmtree(wd, ignore_errors=True)
+    os.makedirs(wd)
+    kinds = ["config-reply-is-an-error", "config-reply-is-not-an-array", "command-arguments-of-the-wrong-type", "requests-for-unknown-documents", "malformed-uris"]
+    for kind in kinds:
+        sd = os.path.join(wd, kind)
+        os.makedirs(sd)
+        log = os.path.join(sd, "strace.log")
+        s = Server(sd, strace=["strace", "-f", "-ttt", "-o", log, "-e", TRACE])
+        doc = os.path.join(sd, "files", "a.md")
+        os.makedirs(os.path.dirname(doc))
+        text = "We saw a tset here.\n"
+        try:
+            s.initialize()
+            s.open(uri_for(doc), text, "markdown")
+            if kind == "config-reply-is-an-error":
+                s.config_override = {"error": {"code": -32601, "message": "Method not found"}}
+                s.notify("textDocument/didChange", {"textDocument": {"uri": uri_for(doc), "version": 2}, "contentChanges": [{"text": text + "More.\n"}]})
+                s.notify("workspace/didChangeConfiguration", {"settings": {}})
+            elif kind == "config-reply-is-not-an-array":
+                s.config_override = {"result": {"harper-ls": "yes"}}
+                s.notify("textDocument/didChange", {"textDocument": {"uri": uri_for(doc), "version": 2}, "contentChanges": [{"text": text + "More.\n"}]})
+                s.config_override = {"result": [None]}
+                s.notify("workspace/didChangeConfiguration", {"settings": None})
+            elif kind == "command-arguments-of-the-wrong-type":
+                for args in ([42, uri_for(doc)], [["tset"], uri_for(doc)], ["tset"], [], ["tset", 7], [None, None], ["tset", "not a url at all"], [{"word": "tset"}, {"uri": uri_for(doc)}]):
+                    for cmd in ("HarperAddToUserDict", "HarperAddToFileDict", "HarperIgnoreLint", "HarperRecordLint", "HarperOpen"):
+                        if cmd == "HarperOpen" and args and isinstance(args[0], str):
+                            continue  # the user-initiated open-URL command is outside the property
+                        s.request("workspace/executeCommand", {"command": cmd, "arguments": args})
+                s.request("workspace/executeCommand", {"command": "NoSuchCommand", "arguments": []})
+            elif kind == "requests-for-unknown-documents":
+                ghost = uri_for(os.path.join(sd, "files", "ghost.md"))
+                s.notify("textDocument/didChange", {"textDocument": {"uri": ghost, "version": 5}, "contentChanges": [{"text": "never opened, a tset"}]})
+                s.notify("textDocument/didSave", {"textDocument": {"uri": ghost}})
+                s.request("textDocument/codeAction", {"textDocument": {"uri": ghost}, "range": {"start": {"line": 0, "character": 0}, "end": {"line": 0, "character": 0}}, "context": {"diagnostics": []}})
+                s.request("workspace/executeCommand", {"command": "HarperAddToFileDict", "arguments": ["tset", ghost]})
+                s.notify("textDocument/didClose", {"textDocument": {"uri": ghost}})
+                s.request("textDocument/codeAction", {"textDocument": {"uri": uri_for(doc)}, "range": {"start": {"line": 99, "character": 99}, "end": {"line": 100, "character": 0}}, "context": {"diagnostics": []}})
+            else:
+                for u in ("", "file://", "file:///", "not-a-uri", "file:///%00/x.md", "file:///" + "a/" * 300 + "x.md", "http://example.com/x.md", "file:///x\ny.md"):
+                    s.notify("textDocument/didOpen", {"textDocument": {"uri": u, "languageId": "markdown", "version": 1, "text": "A buffer with a tset."}})
+                    s.request("workspace/executeCommand", {"command": "HarperAddToFileDict", "arguments": ["tset", u]})
+                    s.notify("textDocument/didSave", {"textDocument": {"uri": u}})
+            try:
+                s.pump(lambda: False, 1.5)
+            except (client.Timeout, client.ServerDied):
+                pass
+        except (client.Timeout, client.ServerDied):
+            pass  # a dead server is C01's business; what it wrote on the way is ours
+        finally:
+            try:
+                s.shutdown(timeout=5)
+            except Exception:
+                s.kill()
+        out.append((log, [s.user_dict, s.file_dict_dir, s.stats_path], "stdio/misbehaving-client/" + kind))
+    return out
+
+
+def large_files_session(wd, rng):
+    """The configured files are already large when the session starts (years of use): a first, untraced session writes
+    real records and words, they are multiplied on disk, then the traced session runs."""
+    shutil.rmtree(wd, ignore_errors=True)
+    os.makedirs(wd)
+    doc = os.path.join(wd, "files", "a.md")
+    os.makedirs(os.path.dirname(doc))
+    text = "We saw a tset here and a wrold there.\n"
+
+    def use(s):
+        s.initialize()
+        s.open(uri_for(doc), text, "markdown")
+        acts = s.code_actions(uri_for(doc), 0, 10)
+        for act in acts:
+            c = act.get("command")
+            if isinstance(c, dict) and c.get("command") == "HarperRecordLint":
+                s.command("HarperRecordLint", c["arguments"])
+                break
+        s.command("HarperAddToUserDict", ["wrold", uri_for(doc)])
+        s.command("HarperAddToFileDict", ["tset", uri_for(doc)])
+
+    s = Server(wd)
+    try:
+        use(s)
+    finally:
+        s.shutdown()
+    sizes = {}
+    for path, target in ((s.stats_path, 3 << 20), (s.user_dict, 1 << 20)):
+        if os.path.exists(path):
+            data = open(path, "rb").read()
+            if data:
+                if path == s.user_dict:
+                    extra = "".join("zq%dword\n" % i for i in range(target // 12)).encode()
+                    data = data + extra
+                else:
+                    data = data * (target // len(data) + 1)
+                with open(path, "wb") as f:
+                    f.write(data)
+                sizes[os.path.basename(path)] = len(data)
+    log = os.path.join(wd, "strace.log")
+    s2 = Server(wd, strace=["strace", "-f", "-ttt", "-o", log, "-e", TRACE])
+    try:
+        use(s2)
+        s2.notify("textDocument/didSave", {"textDocument": {"uri": uri_for(doc)}})
+        time.sleep(0.3)
+    finally:
+        s2.shutdown()
+    return log, [s2.user_dict, s2.file_dict_dir, s2.stats_path], sizes
+
+
 def port_taken_session(wd):
     """TCP mode while 127.0.0.1:4000 is occupied: the server must not listen anywhere else."""
     import socket
@@ -289,6 +401,26 @@ def run(tier, seed, scale, verif):
         written |= {p.replace(wd, "<session>") for p in st["written_paths"]}
         samples.append({"session": label, "syscalls_inspected": st["syscalls"], "network_class": st["network"], "write_opens": st["write_opens"], "other_mutations": st["mutations"],
                         "paths_written": sorted(p.replace(wd, "<session>") for p in st["written_paths"])[:12]})
+    extra_sessions = []
+    try:
+        extra_sessions += misbehaving_sessions(os.path.join(base, "misbehaving"), rng)
+    except (client.Timeout, client.ServerDied, OSError) as e:
+        inconclusive.append("misbehaving-client sessions: %s" % e)
+    try:
+        log, allowed, sizes = large_files_session(os.path.join(base, "large_files"), rng)
+        extra_sessions.append((log, allowed, "stdio/large-existing-files %r" % sizes))
+    except (client.Timeout, client.ServerDied, OSError) as e:
+        inconclusive.append("large-files session: %s" % e)
+    for log, allowed, label in extra_sessions:
+        if not os.path.exists(log):
+            continue
+        f, st = audit(log, allowed, False, label)
+        findings += f
+        for k in totals:
+            totals[k] += st[k]
+        kinds |= st["kinds"]
+        written |= {re.sub(r"^.*/c10/[a-z_]+/", "<session>/", p) for p in st["written_paths"]}
+        samples.append({"session": label, "syscalls_inspected": st["syscalls"], "network_class": st["network"], "write_opens": st["write_opens"], "other_mutations": st["mutations"]})
     ptlog = port_taken_session(os.path.join(base, "port_taken"))
     if ptlog:
         f, st = audit(ptlog, [], True, "tcp/port-4000-already-taken")
